@@ -22,16 +22,18 @@ def cfg_consts(ctx, cfgname):
         return re.findall(r'"([^"]*)"', m.group(1))
     m = re.search(r'VirtOrgs\s*=\s*\{([^}]*)\}', txt)
     virt = [int(x) for x in re.findall(r'\d+', m.group(1))]
+    m = re.search(r'CollideOrgs\s*=\s*\{([^}]*)\}', txt)
+    collide = [int(x) for x in re.findall(r'\d+', m.group(1))]
     keys = [[1, d] for d in strs('DBs1')] + [[2, d] for d in strs('DBs2')]
-    return keys, strs('RPs'), virt
+    return keys, strs('RPs'), virt, collide
 
 
 def case_of(st, consts):
     """One dumped state -> the case as a JSON string without its closing brace (the variant is appended later).
     obs is already sets of tuples: list [org,id,db,rp,bucket,default,virtual], bydb/defl [org,db,id],
     res [org,db,rp,id,bucket], byid [id,org,default]."""
-    keys, rps, virt = consts
-    c = {'steps': st['hist'], 'keys': keys, 'rps': rps, 'virtOrgs': virt, 'obs': st['obs']}
+    keys, rps, virt, collide = consts
+    c = {'steps': st['hist'], 'keys': keys, 'rps': rps, 'virtOrgs': virt, 'collideOrgs': collide, 'obs': st['obs']}
     return json.dumps(c, separators=(',', ':'))[:-1]
 
 
@@ -109,7 +111,8 @@ def run(ctx):
     ctx.rule = ('every TLC history (every prefix is its own case) of Create(org, db, rp, default) / Update(id, rp, default) / '
                 'Delete(id, by owner or by the other organization) for two configurations: wide = 2 organizations x 2 databases, deep = '
                 'one database with all retention policies and longer histories; organization 1 additionally owns buckets named "<d1>" and '
-                '"<d1>/<r1>" that yield virtual mappings; every history under a seed-chosen concretisation of names/ids and a tenth under '
+                '"<d1>/<r1>" that yield virtual mappings and, in the deep and simulated configurations, a bucket "<d1>/autogen" whose virtual mapping '
+                'collides with the one of "<d1>"; every history under a seed-chosen concretisation of names/ids and a tenth under '
                 'all four; non-trivial = the history has an update, a delete or a refused operation; distinct = distinct (operations, final listing)')
     ctx.assumptions += [
         'sequential histories through the DBRPMappingService API of dbrp.Service (the authorizing wrapper and HTTP layer are not in the loop)',
